@@ -21,6 +21,9 @@ pub enum Case {
     RoundTrip { payload: Hex, fill: u64 },
     /// decode a fixed-length container of `n` bytes from an encoding holding `count` bytes
     WrongLength { n: usize, count: usize },
+    /// on ONE thread: refused decodes (too many elements, a malformed element, too few) each followed by a
+    /// valid decode, which must still succeed and give the right bytes; then an empty encoding, which must be refused
+    AfterRefusal { fill: u64 },
 }
 
 type SB<const N: usize> = StackByteArray<N>;
@@ -411,6 +414,72 @@ pub fn wrong_length(nn: usize, count: usize) -> Result<u64, String> {
     Ok(evals)
 }
 
+/// decode state must not leak from a refused decode into the next one (same thread, same type)
+pub fn after_refusal(fill: u64) -> Result<u64, String> {
+    let mut f = Fill::new(fill, "C16:after-refusal");
+    let mut evals = 0u64;
+    macro_rules! seqs {
+        ($t:ty, $n:expr, $name:expr, $fixed:expr) => {{
+            let good: Vec<u8> = f.bytes($n);
+            let long: Vec<u8> = f.bytes($n + 1 + (fill % 5) as usize);
+            let good_json = serde_json::to_string(&good).unwrap();
+            let long_json = serde_json::to_string(&long).unwrap();
+            let mut bad_elems: Vec<serde_json::Value> = good.iter().map(|b| json!(b)).collect();
+            let pos = (fill as usize) % bad_elems.len().max(1);
+            if !bad_elems.is_empty() {
+                bad_elems[pos] = json!(300); // not a u8
+            }
+            let bad_json = serde_json::to_string(&bad_elems).unwrap();
+            let short_json = serde_json::to_string(&good[..$n / 2]).unwrap();
+            let expect_good = |label: &str| -> Result<(), String> {
+                match np($name, || serde_json::from_str::<$t>(&good_json).map_err(|e| e.to_string()))? {
+                    Ok(v) => {
+                        if v.as_slice() != &good[..] {
+                            return Err(format!("{}: a valid {}-element encoding decoded {label} gives {} instead of {}", $name, $n, hx(v.as_slice()), hx(&good)));
+                        }
+                    }
+                    Err(e) => return Err(format!("{}: a valid {}-element encoding is refused when decoded {label}: {e}", $name, $n)),
+                }
+                let via_value: Result<$t, _> = serde_json::from_value(json!(good));
+                match via_value {
+                    Ok(v) if v.as_slice() == &good[..] => Ok(()),
+                    Ok(v) => Err(format!("{}: a valid encoding (serde_json::Value) decoded {label} gives {}", $name, hx(v.as_slice()))),
+                    Err(e) => Err(format!("{}: a valid encoding (serde_json::Value) is refused when decoded {label}: {e}", $name)),
+                }
+            };
+            expect_good("first")?;
+            for (label, doc, must_fail) in [("after a refused over-long sequence", &long_json, $fixed), ("after a refused sequence with a malformed element", &bad_json, !good.is_empty()), ("after a refused short sequence", &short_json, $fixed && $n / 2 != $n)] {
+                let r = np($name, || serde_json::from_str::<$t>(doc).is_ok())?;
+                evals += 1;
+                if must_fail && r {
+                    return Err(format!("{}: accepted an encoding that must be refused ({label})", $name));
+                }
+                expect_good(label)?;
+                evals += 2;
+            }
+            if $fixed {
+                let r = np($name, || serde_json::from_str::<$t>("[]").map(|v| v.as_slice().to_vec()))?;
+                evals += 1;
+                if let Ok(v) = r {
+                    return Err(format!("{}: an EMPTY sequence decoded (after earlier refusals) into {}", $name, hx(&v)));
+                }
+            }
+        }};
+    }
+    seqs!(SB<32>, 32, "StackByteArray<32>", true);
+    seqs!(SB<16>, 16, "StackByteArray<16>", true);
+    seqs!(Vec<u8>, 24, "Vec<u8>", false);
+    #[cfg(feature = "nightly")]
+    {
+        use dryoc::protected::*;
+        seqs!(Locked<HeapByteArray<32>>, 32, "Locked<HeapByteArray<32>>", true);
+        seqs!(Locked<HeapByteArray<64>>, 64, "Locked<HeapByteArray<64>>", true);
+        seqs!(LockedBytes, 40, "LockedBytes", false);
+        seqs!(HeapBytes, 40, "HeapBytes", false);
+    }
+    Ok(evals)
+}
+
 /// bincode encodes `serialize_bytes` as u64 length + raw bytes; this wrapper produces exactly that
 struct BytesLike<'a>(&'a [u8]);
 impl Serialize for BytesLike<'_> {
@@ -426,12 +495,13 @@ pub fn check(c: &Case) -> Result<u64, String> {
     match c {
         Case::RoundTrip { payload, fill } => roundtrip(payload, *fill),
         Case::WrongLength { n, count } => wrong_length(*n, *count),
+        Case::AfterRefusal { fill } => after_refusal(*fill),
     }
 }
 
 pub fn run(ctx: &mut Ctx) -> Result<(), Violation> {
     let nightly_part = cfg!(feature = "nightly") && std::env::var("VERIF_PART").as_deref() == Ok("nightly");
-    ctx.rule = "Round-trips: payload of EVERY length 0..=L x fills through DryocBox (plain, sealed), DryocSecretBox, SignedMessage, KeyPair, SigningKeyPair, kx::Session, Kdf, PwHash+Config and bare StackByteArray<8|12|16|24|32|64> over stack and Vec containers (HeapBytes, LockedBytes, Locked<HeapByteArray<N>>, LockedRO in the nightly sub-run) via to_bytes/from_bytes/from_sealed_bytes, into_parts/from_parts, serde_json (string, bytes, Value), bincode (slice, reader) and serde's own BytesDeserializer / SeqDeserializer (both visitor paths). Oracle: decoded object equals the original AND still decrypts / unseals / verifies / derives the same subkey; to_bytes equals libsodium's combined layout. Wrong-length table: for every N in {8,12,16,24,32,64} and every count 0..=2N, a JSON element sequence, a bincode byte string, the bytes visitor and the seq visitor must be refused exactly when count != N (never padded, truncated or panicking), also nested in KeyPair / DryocBox / DryocSecretBox / SignedMessage documents, TryFrom<&[u8]> and from_slice_into_locked. The committed decoder-fuzzing corpus is replayed through the decoder oracle (no panic; whatever decodes re-encodes stably). Non-trivial: a serde round-trip with payload >= 1 or any wrong-length case; distinct = (case hash).".into();
+    ctx.rule = "Round-trips: payload of EVERY length 0..=L x fills through DryocBox (plain, sealed), DryocSecretBox, SignedMessage, KeyPair, SigningKeyPair, kx::Session, Kdf, PwHash+Config and bare StackByteArray<8|12|16|24|32|64> over stack and Vec containers (HeapBytes, LockedBytes, Locked<HeapByteArray<N>>, LockedRO in the nightly sub-run) via to_bytes/from_bytes/from_sealed_bytes, into_parts/from_parts, serde_json (string, bytes, Value), bincode (slice, reader) and serde's own BytesDeserializer / SeqDeserializer (both visitor paths). Oracle: decoded object equals the original AND still decrypts / unseals / verifies / derives the same subkey; to_bytes equals libsodium's combined layout. Wrong-length table: for every N in {8,12,16,24,32,64} and every count 0..=2N, a JSON element sequence, a bincode byte string, the bytes visitor and the seq visitor must be refused exactly when count != N (never padded, truncated or panicking), also nested in KeyPair / DryocBox / DryocSecretBox / SignedMessage documents, TryFrom<&[u8]> and from_slice_into_locked. Decode-after-refusal sequences on one thread (over-long, malformed-element and short sequences each followed by a valid decode that must succeed with the right bytes; then an empty sequence that must be refused). The committed decoder-fuzzing corpus is replayed through the decoder oracle (no panic; whatever decodes re-encodes stably). Non-trivial: a serde round-trip with payload >= 1 or any wrong-length case; distinct = (case hash).".into();
     ctx.assumptions = vec!["fixed-length enforcement is demanded only of fixed-length container types (Vec<u8> keys have no length to enforce)".into()];
     let l = ctx.tier.pick(200usize, 600);
     let fills = ctx.tier.pick(4usize, 48);
@@ -447,6 +517,9 @@ pub fn run(ctx: &mut Ctx) -> Result<(), Violation> {
             cases.push(Case::WrongLength { n, count });
         }
     }
+    for i in 0..ctx.tier.pick(64u64, 2048) {
+        cases.push(Case::AfterRefusal { fill: ctx.seed.wrapping_mul(31).wrapping_add(i) });
+    }
     ctx.par_each(&cases, |_, c, ev| {
         let n = check(c).map_err(|m| Violation::new("C16", "encoding", m, serde_json::to_value(c).unwrap()))?;
         ev.eval(n);
@@ -459,6 +532,10 @@ pub fn run(ctx: &mut Ctx) -> Result<(), Violation> {
                 if payload.len() == 5 {
                     ev.sample("roundtrip", || json!({"payload": hx(payload), "evaluations": n}));
                 }
+            }
+            Case::AfterRefusal { fill } => {
+                ev.class_n(if nightly_part { "decode-after-refusal-evaluations(nightly build)" } else { "decode-after-refusal-evaluations" }, n);
+                ev.nontrivial(fnv64(&[b"ar", &fill.to_le_bytes(), &[nightly_part as u8]]));
             }
             Case::WrongLength { n: nn, count } => {
                 ev.class_n(if nightly_part { "wrong-length-evaluations(nightly build)" } else { "wrong-length-evaluations" }, n);
